@@ -10,23 +10,42 @@ families are packed BATCH trees per case (one harness request, one genbank.Parse
 from common import *
 import itertools
 
-RULE = ("trees: spans a..b (1<=a<=b<=n) with optional < > markers, single bases, complement, join; EXHAUSTIVE families "
-        "(every expression with exactly k operators, k<=K, binary joins, over every span and base of an n-base parent): "
-        "quick K=3,n=3 and K=2,n=4 unmarked, K=1,n=6 with all marker combinations, all 3-operand joins of leaves n=4; "
-        "thorough K=3,n=6 unmarked (2.9e6 trees), K=2,n=4 with all marker combinations, 3-operand joins n=6, 4-operand joins n=4; "
-        "then random trees (2..6 operands, depth<=4, markers, parents 1..2000 letters, ACGT / IUPAC / mixed case). "
-        "Each tree is evaluated on both paths (text through genbank.Parse, structure through AddFeature) and both written texts are judged. "
+RULE = ("trees: spans a..b (1<=a<=b<=n) with optional < > markers on spans, single bases, complement, join. EXHAUSTIVE families "
+        "(every expression with exactly k operators for each k<=K over the stated leaves of an n-base parent; a join counts one operator): "
+        "thorough: [A] K=3, n=6, ALL 21 spans + 6 bases unmarked, binary joins (2.9e6 trees); [B] K=3, n=6, joins of 2 AND 3 operands, over the "
+        "six leaves 1, 4, 1..3, 2..5, 4..6, 6..6 (5.0e6 trees: every operator shape with at most three operators incl. join(a,complement(b),c), "
+        "join(a,join(b,c),d), complement(join(a,complement(b),c))); [C] K=2, n=6, ALL leaves, joins of 2 and 3 operands except a 3-operand join "
+        "inside a join (join(a,complement(b),c), complement(join(a,b,c)), join(a,b,c), ...: 1.0e5 trees); [D] K=2, n=4, ALL leaves with all four "
+        "marker combinations, binary joins; [E] 4-operand joins of leaves n=4. The complete set 'K=3, n=6, all leaves, 2..3 operands' has "
+        "4.6e7 members at K=2 and about 1e11 at K=3, so B restricts the leaves and C the nesting; this deviation from the quantifier's "
+        "exhaustive clause is stated here rather than hidden. quick: the same families on smaller parents (K=3,n=3 binary; K=2,n=2 and K=1,n=4 with 3-operand "
+        "joins; K=2,n=4 binary; K=1,n=6 marked) — NOT the named domain, hence exhaustive=false for quick. "
+        "Then random trees (2..6 operands, depth<=4, markers, parents 1..2000 letters, ACGT / IUPAC / mixed case; a fifth with a narrow wrapping "
+        "width so that the location text spans several lines of the record). Each tree is evaluated on the text path (genbank.Parse of a "
+        "record in which a text longer than 58 columns is wrapped after commas onto continuation lines) and on three assembled structures "
+        "(canonical; Join=false on joins; Join=false + wrapper node for every complement under a pass-through node) through AddFeature; the four "
+        "written texts are judged on the case's parent and on position-separating parents. "
         "A case line is a batch of up to 64 trees in the exhaustive families (so `evaluations` counts batches); "
         "non-trivial = some tree has an operator and the parent is not a homopolymer; distinct by case text")
-EXHAUSTIVE = {"quick": True, "thorough": True}
+EXHAUSTIVE = {"quick": False, "thorough": True}
 TRUSTED_BASE = ["Spec/Insdc.lean: INSDC location grammar and reading typed from the Feature Table Definition §3.4",
                 "reverse complement inside denote is Transform.revComp (its agreement with the IUPAC reading is C11)",
                 "Go int modelled as unbounded Int; ASCII input"]
 ASSUMPTIONS = ["coordinates and parent lengths are below 2^63 (Go int = Int)", "inputs are ASCII",
-               "the location text reaches parseLocation unchanged through genbank.Parse/getFeatures (single feature line, no blanks; checked on every case by the correspondence of the parsed structure)"]
+               "partial markers qualify the end points of a span only (Feature Table Definition 3.4.2.1 lists 'a single base number' without them; "
+               "3.4.3 shows < > on span ends): '<5' / '>5' are outside the location grammar the property is read over. poly parses '<5' to "
+               "{Start:-1,End:0} and GetSequence panics; this is a correspondence-only probe, not judged",
+               "the location text reaches parseLocation through genbank.Parse/getFeatures (one feature, text without blanks, wrapped after commas "
+               "at 58 columns or at the case's width); that the glued text is the text sent is checked on every case (GbkLocationString) and the "
+               "parsed structure is compared with the model's",
+               "'assembled as a structure' is read as: any poly.Location p with Insdc.Rep p l (join nodes with or without the Join flag when they "
+               "have >= 2 sublocations, complement as merged flag or wrapper node, pass-through nodes, arbitrary coordinates/flags on inner nodes); "
+               "a leaf must have Join == false and no sublocations"]
 PARTIAL = [
-    "build_is_insdc (written text is valid INSDC with the same bases and partial ends) is proved as build_is_insdc_partial / build_parsed_is_insdc_partial "
-    "under the hypothesis 'no 3'-partial span' (known finding C02-writer-3prime: a..b> is written instead of a..>b; kernel-checked counterexample build_3prime_witness)",
+    "build_is_insdc (written text is valid INSDC with the same bases and partial ends) holds at full strength only up to the placement of the 3' marker "
+    "(build_is_insdc_lenient: the text is read by the recogniser that also accepts a..b>, and denotes the same bases and ends); strict INSDC validity is "
+    "proved as build_is_insdc_partial / build_parsed_is_insdc_partial under 'no 3'-partial span' (known finding C02-writer-3prime: a..b> is written "
+    "instead of a..>b; kernel-checked counterexample build_3prime_witness)",
 ]
 
 BATCH = 64
@@ -44,17 +63,23 @@ def leaves(n, marks):
     return out
 
 
-def exprs(k, L, memo):
-    """every expression with exactly k operators (complement, binary join) over the leaves L"""
+def exprs(k, L, memo, ternary=False):
+    """every expression with exactly k operators over the leaves L: complement, joins of two operands and
+    (ternary) of three operands"""
     if k in memo:
         return memo[k]
     if k == 0:
         r = list(L)
     else:
-        r = ["(c %s)" % x for x in exprs(k - 1, L, memo)]
+        r = ["(c %s)" % x for x in exprs(k - 1, L, memo, ternary)]
         for i in range(k):
-            xs, ys = exprs(i, L, memo), exprs(k - 1 - i, L, memo)
+            xs, ys = exprs(i, L, memo, ternary), exprs(k - 1 - i, L, memo, ternary)
             r.extend("(j %s %s)" % (x, y) for x in xs for y in ys)
+        if ternary:
+            for i in range(k):
+                for j in range(k - i):
+                    xs, ys, zs = exprs(i, L, memo, ternary), exprs(j, L, memo, ternary), exprs(k - 1 - i - j, L, memo, ternary)
+                    r.extend("(j %s %s %s)" % (x, y, z) for x in xs for y in ys for z in zs)
     memo[k] = r
     return r
 
@@ -76,11 +101,44 @@ def batches(trees, parents, size=BATCH):
             i += 1
 
 
-def family(K, n, marks, parents):
-    L = leaves(n, marks)
+def family(K, L, parents, ternary=False, only3=False):
     memo = {}
     for k in range(K + 1):
-        yield from batches(exprs(k, L, memo), parents)
+        ts = exprs(k, L, memo, ternary)
+        if only3:          # the binary-only trees are enumerated elsewhere over all leaves
+            ts = (t for t in ts if shape3(t))
+        yield from batches(ts, parents)
+
+
+def family_c(L, parents):
+    """<= 2 operators, ALL leaves, one 3-operand join whose operands are leaves or one complement of a leaf"""
+    def gen():
+        for t in itertools.product(L, repeat=3):
+            yield "(j %s %s %s)" % t
+            yield "(c (j %s %s %s))" % t
+            for pos in range(3):
+                u = list(t)
+                u[pos] = "(c %s)" % u[pos]
+                yield "(j %s %s %s)" % tuple(u)
+    yield from batches(gen(), parents)
+
+
+def shape3(t):
+    """some join in t has three operands"""
+    stack = []
+    for i, ch in enumerate(t):
+        if ch == "(":
+            if stack:
+                stack[-1][1] += 1
+            stack.append([t[i + 1], 0])
+        elif ch == ")":
+            kind, n = stack.pop()
+            if kind == "j" and n == 3:
+                return True
+    return False
+
+
+R6 = ["(b 1)", "(b 4)", "(s 1 3)", "(s 2 5)", "(s 4 6)", "(s 6 6)"]
 
 
 def rand_tree(r, n, depth, pmark, pcc):
@@ -119,19 +177,18 @@ def cases(seed, tier):
     quick = tier == "quick"
     # ---- exhaustive families
     if quick:
-        yield from family(3, 3, [""], ["GAT", "ACG", "CTA"])
-        yield from family(2, 4, [""], ["GTCA", "ACGA", "TTGA"])
-        yield from family(1, 6, ["", "<", ">", "<>"], PARENTS6)
-        L4 = leaves(4, [""])
-        yield from batches(("(j %s %s %s)" % t for t in itertools.product(L4, repeat=3)), ["GTCA", "AACG"])
+        yield from family(3, leaves(3, [""]), ["GAT", "ACG", "CTA"])
+        yield from family(2, leaves(2, [""]), ["GA", "AC", "CT"], ternary=True, only3=True)
+        yield from family(1, leaves(4, [""]), ["GTCA", "AACG"], ternary=True, only3=True)
+        yield from family(2, leaves(4, [""]), ["GTCA", "ACGA", "TTGA"])
+        yield from family(1, leaves(6, ["", "<", ">", "<>"]), PARENTS6)
     else:
-        yield from family(3, 6, [""], PARENTS6)
-        yield from family(2, 4, ["", "<", ">", "<>"], ["GTCA", "ACGA", "TTGA"])
-        L6 = leaves(6, [""])
-        yield from batches(("(j %s %s %s)" % t for t in itertools.product(L6, repeat=3)), PARENTS6)
-        yield from batches(("(c (j %s %s %s))" % t for t in itertools.product(L6, repeat=3)), PARENTS6)
+        yield from family(3, leaves(6, [""]), PARENTS6)                                   # A
+        yield from family(3, R6, PARENTS6, ternary=True, only3=True)                       # B
+        yield from family_c(leaves(6, [""]), PARENTS6)                                    # C
+        yield from family(2, leaves(4, ["", "<", ">", "<>"]), ["GTCA", "ACGA", "TTGA"])  # D
         L4 = leaves(4, [""])
-        yield from batches(("(j %s %s %s %s)" % t for t in itertools.product(L4, repeat=4)), ["GTCA", "AACG"])
+        yield from batches(("(j %s %s %s %s)" % t for t in itertools.product(L4, repeat=4)), ["GTCA", "AACG"])   # E
     # ---- random trees, one per case
     n = 600 if quick else 12000
     for i in range(n):
@@ -143,8 +200,11 @@ def cases(seed, tier):
         t = rand_tree(r, plen, depth, pmark, pcc)
         if style == 2 and r.random() < 0.5:              # 5'-only markers: the writer must get these right
             t = t.replace("<>", "<").replace(" >)", ")")
-        yield ["loc", rand_parent(r, plen), t]
-    # deep / wide extremes
+        if i % 5 == 4:      # narrow record: the location text is wrapped over several lines
+            yield ["locw", str(r.choice([1, 1, 8, 20, 40])), rand_parent(r, plen), t]
+        else:
+            yield ["loc", rand_parent(r, plen), t]
+    # deep / wide extremes (their texts are several hundred characters long: wrapped at 58 columns)
     for i in range(10 if quick else 100):
         plen = r.randint(50, 2000)
         t = "(s %d %d)" % (1, plen)
@@ -156,7 +216,8 @@ def cases(seed, tier):
     for raw in ["3..7>", "<3..7>", ">3..<7", "join()", "join(1..2)", "5.6", ")(", "(", "order(1..2,3..4)", "", "abc", "0", "0..0",
                 "complement()", "complement(complement(1..2))", "join(1..2,)", "join(,1..2)", "join(1..2,3..4))", "join((1..2,3..4)",
                 "3..12", "12", "7..3", "-3..4", "+3..4", "1..2..3", "3^4", "join(1..2,order(3..4,5..6))", "J00194.1:1..5",
-                "complement(join(1..2,3..4),5..6)", "complement(3..7", "3..7)", "join(complement(1..2)..3,4)", "complement(1..0)"]:
+                "complement(join(1..2,3..4),5..6)", "complement(3..7", "3..7)", "join(complement(1..2)..3,4)", "complement(1..0)",
+                "<5", ">5", "complement(<5)", "join(<1,3..4)", "<5..7>", "01..5", "3..>7>"]:
         yield ["text", p, raw]
     for pl in ["(0 0 - (0 3 -) (3 6 c))", "(0 0 c (2 5 -))", "(0 0 j)", "(0 0 -)", "(2 12 -)", "(-1 3 -)", "(5 3 -)", "(0 0 cj53 (1 2 53))",
                "(2 5 cj)", "(2 5 c53)", "(0 0 - (2 5 -))", "(0 0 - (2 5 c))", "(0 0 j (2 5 -))", "(0 0 5 (0 0 3 (1 2 53)))", "(1 2 - (3 4 -) (5 6 c) (7 8 -))", "(0 0 c (0 0 c (0 0 c (1 4 -))))", "(3 3 -)", "(10 10 -)", "(0 0 j (0 0 j (1 2 -)) (0 11 -))"]:
@@ -167,16 +228,22 @@ def cases(seed, tier):
 
 TECHNIQUE = ("Lean 4 proof over executable models of parseLocation / getFeatureSequence / BuildLocationString against an abstract syntax "
              "with INSDC denotation; mutual structural induction over the nested location type; differential correspondence incl. exhaustive small domains")
-LEVEL_TEXT = ("Theorems (Props/C02) for every location tree of any depth and operand count whose positions lie on the parent: the assembled "
-              "structure evaluates to the INSDC reading (eval_embed); the parsed canonical text yields exactly the structure pembed l "
+LEVEL_TEXT = ("Theorems (Props/C02) for every location tree of any depth and operand count whose positions lie on the parent, and for EVERY "
+              "poly.Location structure p with Rep p l (join nodes with or without the Join flag, complement merged or as wrapper node, pass-through "
+              "nodes, arbitrary inner-node coordinates/flags): p evaluates to the INSDC reading (eval_assembled), records the partial ends "
+              "(partial_flags_assembled) and is written as text that the lenient recogniser reads back to a location with the same bases and ends "
+              "(build_is_insdc_lenient, full strength) — strictly valid INSDC when there is no 3'-partial span (build_is_insdc_partial; kernel-checked "
+              "counterexample build_3prime_witness for the excluded class). The canonical text parses to exactly the structure pembed l "
               "(parsed_structure: the depth-0 comma splitter inverts operand printing, Atoi inverts Itoa, Index/LastIndex/slices cut keyword and body), "
-              "keeps the partial flags (partial_flags) and evaluates to the INSDC reading (eval_parse) — all at full strength, complement of complement included; "
-              "the written text is accepted by a strict INSDC recogniser and denotes the same bases and ends when there is no 3'-partial span "
-              "(build_is_insdc_partial, build_parsed_is_insdc_partial), with a kernel-checked counterexample for the excluded class. "
-              "Tie: correspondence of genbank.Parse + GetSequence + BuildLocationString and of AddFeature + GetSequence + BuildLocationString "
-              "with the model on every case, exhaustive families named in `rule`.")
-LEVEL_NOTE = ("Trusted: Lean kernel; harness + driver; the INSDC grammar/denotation typed by hand; Go int as Int; the record wrapper "
-              "(getFeatures hands the text to parseLocation unchanged). Stated modulo C11 for the reverse complement.")
+              "which is in the family (parsed_represents), so eval_parse, partial_flags, build_parsed_is_insdc_lenient/_partial follow; "
+              "embed_represents / embedV_represents put the structures sent to AddFeature in the family. "
+              "Tie: correspondence of genbank.Parse (wrapped multi-line location text) + GetSequence + BuildLocationString and of AddFeature + "
+              "GetSequence + BuildLocationString on three structure variants with the model on every case, exhaustive families named in `rule`; "
+              "every observation is made twice on the same feature (writing must not change the location).")
+LEVEL_NOTE = ("Trusted: Lean kernel; harness + driver; the INSDC grammar/denotation typed by hand (markers on span ends only); Go int as Int; "
+              "buildLoc/getSeq are pure functions of the structure — that the Go functions do not modify the caller's structure is tied only by "
+              "observing each feature twice; the flags parseLocation puts on inner nodes are pinned by the correspondence and by parsed_structure "
+              "but are not constrained by the property. Stated modulo C11 for the reverse complement.")
 
 HARNESS_BIN = "run-genbank"
 EXTRACT_BINS = ["extract-seq"]
